@@ -43,18 +43,7 @@ pub trait ExWrite {
 //@include contracts/version_cmp.inc
 //@include contracts/header_lookup.inc
 
-impl HeaderField {
-    pub closed spec fn name(&self) -> Seq<char> { self.0@ }
-}
-//@impl src/common.rs "HeaderField"
-//@fn equiv ret r
-//@assume
-//@spec
-    ensures r == eq_ic(other@, self.name()),      // proved in U-PARSE
-//@endfn
-//@endimpl
-
-//@include prelude/deps_ascii_str.rs
+//@include contracts/common_api_assumed.inc
 
 // R22: byte-string literals (the extractor has checked that TEXT is plain ASCII)
 #[verifier::external_body]
@@ -336,6 +325,13 @@ pub open spec fn header_policy(hdrs0: Seq<Header>, decl0: Option<usize>, hh: Hea
         }
 //@after? 1 self.reader.read_to_end
                     proof { assert(buf@ =~= body0); }   // [C04]
+//@before? 1 Ok(())
+        proof {   // [C04]
+            // a message announced as chunked is self-delimiting only if the chunked coding (at least its terminating chunk)
+            // is actually produced -- also for an empty body; an identity body of n >= 1 bytes is copied
+            assert(transfer_encoding == Some(TransferEncoding::Chunked) && !head_only && !no_body_status(status0) ==> encoder_made() && copied_once());
+            assert(transfer_encoding == Some(TransferEncoding::Identity) && !head_only && !no_body_status(status0) && data_length is Some && data_length->Some_0 >= 1 ==> copied_once());
+        }
 //@before? 1 io::copy
                     // ... and what is copied is exactly the application's body, through the chunk encoder
                     proof { assert(!head_only && !no_body_status(status0) && upgrade is None); assert(dyn_stream(&reader) == body0); }   // [C04]
